@@ -152,6 +152,14 @@ fn corrupt_ct(w: &World, ct: &Ciphertext, kind: u8, pos: u16) -> Option<(Ciphert
         12 => { if w.ps.scheme == Scheme::BGV { s.cf = w.t() + 1; "BGV correction factor t+1" } else { return None; } }
         13 => { if s.size != 2 { return None; } let d = s.deg * s.cms; s.data[d] = u64::MAX; "seed flag set (not expanded)" }
         14 => { s.id = *w.context.key_parms_id(); if w.context.key_parms_id() == w.context.first_parms_id() { return None; } "key-level parms_id" }
+        15 | 16 => {
+            // an internally consistent ciphertext that lives at the key level (sizes, residues and buffer length all right): not an operand
+            if w.context.key_parms_id() == w.context.first_parms_id() { return None; }
+            let pk = catch(|| w.keygen.create_public_key(false)).ok()?;
+            let mut k = pk.as_ciphertext().clone();
+            if kind == 16 && w.ps.scheme == Scheme::BFV { k.set_is_ntt_form(false); }
+            return Some((k, "well-formed ciphertext at the key level"));
+        }
         _ => return None,
     };
     Some((ct_from(&s), what))
@@ -282,7 +290,7 @@ fn oracle(c: &FormsCase) -> Verdict {
                 } else if ua {
                     let tgt_op = if which == 1 && ub { 1 } else if which == 2 && uc { 2 } else { 0 };
                     let src = match tgt_op { 1 => &o.b, 2 => &o.c, _ => &o.a };
-                    if let Some((x2, wh)) = corrupt_ct(w, src, ts.corr % 15, ts.cpos) {
+                    if let Some((x2, wh)) = corrupt_ct(w, src, ts.corr % 17, ts.cpos) {
                         match tgt_op { 1 => bad.b = x2, 2 => bad.c = x2, _ => bad.a = x2 }
                         what = Some(format!("ciphertext operand {}: {wh}", ["a", "b", "c"][tgt_op]));
                     }
